@@ -721,6 +721,9 @@ def install(repo_root: str | None = None) -> None:
                 for ck, cv in list(vars(v).items()):
                     if isinstance(cv, lock_types):
                         setattr(v, ck, CRLock() if isinstance(cv, lock_types[1]) else CLock())
+    import logging
+
+    logging.getLogger("Rx").setLevel(logging.CRITICAL)  # "Do not schedule blocking work!" etc. is noise here
     import reactivex.scheduler.scheduler as sch
 
     sch.default_now = clock_now
@@ -729,6 +732,12 @@ def install(repo_root: str | None = None) -> None:
     for k, v in list(vars(tps).items()):
         if getattr(v, "__name__", "") == "ThreadPoolExecutor":
             setattr(tps, k, CExecutor)
+    try:
+        import reactivex.scheduler.eventloop.asynciothreadsafescheduler as ats
+
+        ats.Future = CFuture  # the library blocks on future.result(): must be a controlled wait
+    except Exception:
+        pass
     _installed = True
 
 
@@ -736,3 +745,83 @@ def focus_files(*rel: str) -> list[str]:
     from . import core
 
     return [os.path.join(os.path.realpath(core.REPO), "reactivex", r) for r in rel]
+
+
+# ===================================================================== controlled Future + virtual asyncio loop
+
+class CFuture:
+    """Stand-in for concurrent.futures.Future where the library blocks on .result() (controlled wait)."""
+
+    def __init__(self):
+        self._ev = CEvent()
+        self._res = None
+        self._exc = None
+
+    def set_result(self, r):
+        self._res = r
+        self._ev.set()
+
+    def set_exception(self, e):
+        self._exc = e
+        self._ev.set()
+
+    def done(self):
+        return self._ev.is_set()
+
+    def result(self, timeout=None):
+        self._ev.wait(timeout)
+        if self._exc is not None:
+            raise self._exc
+        return self._res
+
+
+def make_virtual_loop():
+    """An asyncio event loop whose clock is the explorer's and whose selector wait is a
+    controlled blocking point; run it with run_forever() on a managed (non-harness) thread."""
+    import asyncio
+
+    class _Selector:
+        def __init__(self, loop):
+            self.loop = loop
+            self.woken = False
+
+        def select(self, timeout=None):
+            me = cur()
+            if me is None:
+                return []
+            r = me.run
+            if self.woken:
+                self.woken = False
+                r.point(me, "loop.select")
+                return []
+            if timeout is not None and timeout <= 0:
+                r.point(me, "loop.select")
+                return []
+            deadline = None if timeout is None else r.clock + timeout
+            r.block(me, lambda: self.woken, deadline, "select")
+            self.woken = False
+            return []
+
+        def close(self):
+            pass
+
+    class VirtualLoop(asyncio.BaseEventLoop):
+        def __init__(self):
+            super().__init__()
+            self._selector = _Selector(self)
+            self._clock_resolution = 1e-9
+
+        def time(self):
+            r = _current_run
+            return r.clock if r is not None else 0.0
+
+        def _process_events(self, event_list):
+            pass
+
+        def _write_to_self(self):
+            self._selector.woken = True
+            me = cur()
+            if me is not None:
+                me.run.point(me, "loop.wakeup")
+
+    return VirtualLoop()
